@@ -326,6 +326,41 @@ def run_omitted(sx, case):
     return case
 
 
+def run_hinge(sx):
+    """zero length is a matter of position, not of vertex identity: a hinge-shaped loft whose top face shares an edge with its
+    bottom face, the bottom being the slave side of a merged patch pair - corners 0/4 and 1/5 are different vertices at the
+    same place, and the curved edges declared between them must not be written"""
+    t = sx.vec(sx.real("tx", -5, 5), sx.real("ty", -5, 5), sx.real("tz", -5, 5))
+    P = lambda *c: sx.vec(*c) + t
+    bottom = cb.Face([P(0.2, 0.1, 0.3), P(1.2, 0.1, 0.3), P(1.2, 1.1, 0.3), P(0.2, 1.1, 0.3)])
+    top = cb.Face([P(0.2, 0.1, 0.3), P(1.2, 0.1, 0.3), P(1.2, 0.9, 0.9), P(0.2, 0.9, 0.9)])
+    hinge = cb.Loft(bottom, top)
+    hinge.project_side("left", "surf", edges=True)                                   # 3-0, 7-4, 3-7 and the zero-length 0-4
+    hinge.add_side_edge(1, cb.PolyLine([P(1.2, 0.1, 0.3), P(1.2, 0.1, 0.3)]))       # 1-5, zero length
+    hinge.set_patch("bottom", "slave")
+    base = cb.Loft(cb.Face([P(0.2, 0.1, -0.7), P(1.2, 0.1, -0.7), P(1.2, 1.1, -0.7), P(0.2, 1.1, -0.7)]),
+                   cb.Face([P(0.2, 0.1, 0.3), P(1.2, 0.1, 0.3), P(1.2, 1.1, 0.3), P(0.2, 1.1, 0.3)]))
+    base.set_patch("top", "master")
+    mesh = cb.Mesh()
+    mesh.add(base)
+    mesh.add(hinge)
+    mesh.merge_patches("master", "slave")
+    mesh.assemble()
+    sx.reach("written")
+    blk = mesh.blocks[1]
+    dup = all(blk.vertices[a].index != blk.vertices[b].index for a, b in ((0, 4), (1, 5)))
+    sx.prove(dup, "hinge: the coinciding corners 0/4 and 1/5 are distinct vertices (slave copies)", "C07:hinge:setup")
+    conds = []
+    for e in mesh.edge_list.edges:
+        d = e.vertex_1.position - e.vertex_2.position
+        conds.append(d[0] * d[0] + d[1] * d[1] + d[2] * d[2] >= sx.const(1e-14))
+    sx.prove(sx.all(conds), "hinge: no edge of zero length is written", "C07:omitted:zero-length:coinciding-vertices",
+             info={"edges": [(e.kind, e.vertex_1.index, e.vertex_2.index) for e in mesh.edge_list.edges]})
+    sx.prove(len(mesh.edge_list.edges) == 3, "hinge: the three real projected edges are written, each once", "C07:hinge:count",
+             info={"edges": len(mesh.edge_list.edges)})
+    return "written"
+
+
 def jobs(tier, seed):
     js = []
 
@@ -343,4 +378,5 @@ def jobs(tier, seed):
     add("run_duplicate", "duplicate|different", same_data=False)
     for case in ("collinear-arc", "line", "zero-length"):
         add("run_omitted", f"omitted|{case}", case=case)
+    add("run_hinge", "omitted|zero length between coinciding slave/master vertices")
     return js
